@@ -89,8 +89,11 @@ def main(tier, seed):
     return seqcheck.run_seq_check("C15", tier, seed, PROFILES, oracle, 1200, 30000, p_seqprops.ASSUME + [
         "counterfactual stage: a top-level insert/enable/update/disable that returned an IO error is deleted and the real code re-run; every other "
         "source must behave identically (single-sub-source sources only; partial registration of larger composites is finding F11)"],
-        known_classifier=p_seqprops.classify)
+        known_classifier=p_seqprops.classify, extra_front=lambda chk, st: __import__("p_dupadapt").stage(chk, "C15"))
 
 
 def replay(path):
+    if "dupadapt case" in open(path).read():
+        import p_dupadapt
+        return p_dupadapt.replay(path)
     return seqcheck.replay("C15", path, oracle)
